@@ -264,9 +264,10 @@ pub fn all_cascade(tabs: &[Tab]) -> bool {
 // classifiers: narrow predicates on (schema, pre-state, statement, post-state)
 
 pub fn fk_standard(tabs: &[Tab], fk: &Fk) -> bool {
-    let asc = fk.cols.windows(2).all(|w| w[0] < w[1]);
+    // (declaration order no longer matters: INSERT, UPDATE and DELETE all use it)
+    let distinct = (0..fk.cols.len()).all(|i| !fk.cols[i + 1..].contains(&fk.cols[i]));
     let p = &tabs[fk.parent];
-    asc && !p.dropped && p.pk.as_ref().map(|pk| *pk == fk.pcols).unwrap_or(false) && fk.cols.len() == fk.pcols.len()
+    distinct && !p.dropped && p.pk.as_ref().map(|pk| *pk == fk.pcols).unwrap_or(false) && fk.cols.len() == fk.pcols.len()
 }
 
 fn reaches_by_cascade(tabs: &[Tab], from: usize, to: usize) -> bool {
@@ -306,12 +307,6 @@ pub fn classify_c12(cx: &Ctx) -> &'static str {
         if fk.how == How::ColumnLevel {
             return "column-level-references-ignored";
         }
-        if tabs[fk.parent].dropped {
-            return "drop-referenced-table";
-        }
-        if !fk.cols.windows(2).all(|w| w[0] < w[1]) {
-            return "fk-columns-out-of-order";
-        }
         if !fk_standard(tabs, fk) {
             return "fk-references-non-pk";
         }
@@ -321,9 +316,6 @@ pub fn classify_c12(cx: &Ctx) -> &'static str {
         Stmt::Delete { t, .. } | Stmt::Update { t, .. } => {
             for c in tabs.iter().filter(|c| !c.dropped) {
                 for fk in c.fks.iter().filter(|f| (f.parent == *t || c.id == *t) && f.how != How::ColumnLevel) {
-                    if !fk.cols.windows(2).all(|w| w[0] < w[1]) {
-                        return "fk-columns-out-of-order";
-                    }
                     if !fk_standard(tabs, fk) {
                         return "fk-references-non-pk";
                     }
@@ -333,11 +325,6 @@ pub fn classify_c12(cx: &Ctx) -> &'static str {
         _ => {}
     }
     match cx.stmt {
-        Stmt::Drop { t } => {
-            if tabs.iter().any(|c| c.id != *t && c.fks.iter().any(|f| f.parent == *t)) {
-                return "drop-referenced-table";
-            }
-        }
         Stmt::AddFk { t, fk } => {
             // rows that were there before the constraint violate it
             let rows = rows_of(cx.pre, *t);
@@ -347,12 +334,6 @@ pub fn classify_c12(cx: &Ctx) -> &'static str {
                 nonnull(&k) && !parent_has(fk, &k, prows)
             }) {
                 return "add-fk-unvalidated";
-            }
-        }
-        Stmt::InsertSelect { .. } => {
-            // the bulk transfer inserts row by row: an error leaves the earlier rows behind
-            if cx.is_err {
-                return "partial-effects-on-error";
             }
         }
         Stmt::Delete { t, wh } => {
